@@ -26,4 +26,18 @@ func init() {
 	staticModels["github.com/pkg/errors.Wrap"] = wrap
 	staticModels["github.com/pkg/errors.Wrapf"] = wrap
 	staticModels["github.com/pkg/errors.WithStack"] = wrap
+	staticModels["strings.HasPrefix"] = &model{name: "strings.HasPrefix(s, p) <=> len(p) <= len(s) and s[i] == p[i] for all i < len(p)", mods: noMods,
+		run: func(c *VCtx, fr *Frame, st *State, cc *ssa.CallCommon, args []Val, res types.Type) Val {
+			b := c.fresh("hp", SBool)
+			c.defFact(b, Eq(b, c.hasPrefix(c.asTerm(args[0]), c.asTerm(args[1]))))
+			return b
+		}}
+	staticModels["strings.TrimPrefix"] = &model{name: "strings.TrimPrefix(s, p) = s[len(p):] if HasPrefix(s, p) else s", mods: noMods,
+		run: func(c *VCtx, fr *Frame, st *State, cc *ssa.CallCommon, args []Val, res types.Type) Val {
+			s, p := c.asTerm(args[0]), c.asTerm(args[1])
+			sub := c.substr(s, StrLen(p), StrLen(s))
+			b := c.fresh("hp", SBool)
+			c.defFact(b, Eq(b, c.hasPrefix(s, p)))
+			return c.name("trim", Ite(b, sub, s))
+		}}
 }
